@@ -1,0 +1,12 @@
+//go:build verif
+
+package sonic
+
+import "github.com/talostrading/sonic/internal"
+
+// VerifSetGate installs a scheduler gate for the verification harness: f is
+// called (and may block) at the critical points of Post, dispatch and Poll.
+// Only compiled with the `verif` build tag.
+func VerifSetGate(f func(point string)) {
+	internal.SetVerifGate(f)
+}
